@@ -104,7 +104,7 @@ Example C05_nonvacuous :
   r = Err ValueError /\ s_root s' = pre /\ List.length (s_trace s') = 10%nat.
 Proof. cbn zeta. split; [cbn; auto|]. vm_compute. repeat split. Qed.
 
-(* ======================================================================================================================
+(* ===============================================================================================================
    EVERY WRITING ENTRY POINT (Entry.v: write_arrays, write_dicts / backend writers called directly, geff.write, from_ctc_to_geff
    with its label-volume export, from_trackmate_xml_to_geff -- see props/C06.v).
    ====================================================================================================================== *)
@@ -162,3 +162,119 @@ Example C05_entry_nonvacuous :
   let (s', r) := e_run (ECtc d vol) (init pre) in
   r = Err FileExistsError /\ s_root s' = Some (ZG [] [("seg", ZG [] []); ("lab", ZA vol)]) /\ List.length (s_trace s') = 4%nat.
 Proof. cbn zeta. vm_compute. repeat split. Qed.
+(* =====================================================================================================================
+   DEEPENING (c03x): the writers above write_arrays -- write_dicts (Dicts.v) and the three graph-library backends
+   (Backends.v / BackendsMd.v) under geff.write(overwrite=...) (DictsCrash.api_ov: the wrapper's guard, then the backend).
+   write_dicts = dict_props_to_arr (pure) ; write_arrays(overwrite=False): the dictionaries are converted BEFORE the store is touched.
+   ===================================================================================================================== *)
+From Geff Require Import Read Dicts Backends BackendsMd DictsCrash.
+
+(* dictionaries that cannot become arrays (ragged beyond var-length, mixed strings and numbers, negative ids, ...): the exception
+   is raised before any mutation, on any location, whatever it holds *)
+Theorem C05_write_dicts_raises_before_mutation : forall k g nn en md e s,
+  dicts_wgraph g nn en = Err e -> write_dicts k g nn en md s = (s, Err e).
+Proof. exact write_dicts_pure_fail. Qed.
+Print Assumptions C05_write_dicts_raises_before_mutation.
+
+(* (a3) write_dicts onto a location holding no geff: ANY dictionaries, any property names, any metadata *)
+Theorem C05_crash_write_dicts_fresh : forall k pre g nn en md,
+  clean k pre ->
+  let (s', r) := write_dicts k g nn en md (init pre) in
+  new_ok k r (s_trace s') /\ (r <> Ok tt -> unrecognised k (s_root s')).
+Proof. intros k pre g nn en md Hc. apply (crash_fresh k pre _ (cs_write_dicts k g nn en md) (clean_no_geff k pre Hc)). Qed.
+Print Assumptions C05_crash_write_dicts_fresh.
+
+(* the writers geff.write dispatches to *)
+Inductive backend_writer (k : skind) : M unit -> Prop :=
+| BW_dicts g nn en md : backend_writer k (write_dicts k g nn en md)
+| BW_nx d g axes mdtok axtok : backend_writer k (nx_write k d g axes mdtok axtok)
+| BW_nx_names d g nn en axes mdtok axtok : backend_writer k (nx_write_names k d g nn en axes mdtok axtok)
+| BW_rx d g idmap axes mdtok axtok : backend_writer k (rx_write k d g idmap axes mdtok axtok)
+| BW_nx_md d g mdc axes mdtok : backend_writer k (nx_write_md k d g mdc axes mdtok)
+| BW_rx_md d g idmap mdc axes mdtok : backend_writer k (rx_write_md k d g idmap mdc axes mdtok)
+| BW_sg g md axis_names mdtok axtok : backend_writer k (sg_write k g md axis_names mdtok axtok).
+
+Lemma backend_writer_safe k w : backend_writer k w -> crash_safe k w.
+Proof. intros [ | | | | | | ]; intros; [apply cs_write_dicts | apply cs_nx_write | apply cs_nx_write_names | apply cs_rx_write | apply cs_nx_write_md | apply cs_rx_write_md | apply cs_sg_write]. Qed.
+
+(* (b3) geff.write(graph, store, overwrite=ov) for a networkx / rustworkx / spatial-graph object (every metadata call shape) and
+        write_dicts behind the same guard, from ANY pre-state: every state after the first mutation (the deletion of the old nodes
+        group, or the first array of the new graph) is unrecognised until the new graph is committed; a call that raises after a
+        mutation -- validation failure and clean-up, a dictionary that cannot be converted AFTER the old geff was deleted, the
+        inner guard refusing -- ends unrecognised; before the first mutation the location holds what it held *)
+Theorem C05_crash_backend_writers : forall k pre ov w, backend_writer k w ->
+  let (s', r) := api_ov k ov w (init pre) in
+  new_ok k r (s_trace s') /\ (r <> Ok tt -> s_trace s' <> [] -> unrecognised k (s_root s')).
+Proof. intros k pre ov w Hw. apply crash_api_ov. apply backend_writer_safe. exact Hw. Qed.
+Print Assumptions C05_crash_backend_writers.
+
+(* (a4) the same writers on a location holding no geff: never recognised before the commit, unrecognised after any exception *)
+Theorem C05_crash_backend_writers_fresh : forall k pre ov w, backend_writer k w -> clean k pre ->
+  let (s', r) := api_ov k ov w (init pre) in
+  new_ok k r (s_trace s') /\ (r <> Ok tt -> unrecognised k (s_root s')).
+Proof. intros k pre ov w Hw Hc.
+  assert (Hs : crash_safe k (api_ov k ov w)).
+  { intros s Hng. unfold api_ov, bind. unfold overwrite_guard, bind. rewrite check_for_geff_spec.
+    destruct (exists_geff k (s_root s)) eqn:E.
+    - destruct ov.
+      + (* a path that exists without a geff attribute: delete_geff runs first *)
+        pose proof (delete_geff_states k s) as Hd. destruct (delete_geff k s) as [s1 [u|e]] eqn:Ed.
+        * destruct Hd as [n1 [Ht1 [HF1 HP1]]].
+          assert (HU1 : Forall (unrecognised k) n1) by (eapply Forall_impl; [|exact HF1]; intros st; apply nodes_gone_unrecognised).
+          destruct u. pose proof (backend_writer_safe k w Hw s1 (delete_geff_ok_no_geff k _ _ Ed)) as H.
+          destruct (w s1) as [s' r]. destruct H as [new [Ht [Hn Hr]]]. exists (new ++ n1). rewrite Ht, Ht1, app_assoc. split; [reflexivity|].
+          split; [|exact Hr]. destruct new as [|f l]; cbn; [apply new_ok_all; exact HU1|].
+          destruct Hn as [Hl Hf]. split; [apply Forall_app; auto | exact Hf].
+        * destruct Hd as [n1 [Ht1 [HF1 HP1]]]. exists n1. split; [exact Ht1|].
+          assert (HU1 : Forall (unrecognised k) n1) by (eapply Forall_impl; [|exact HF1]; intros st; apply nodes_gone_unrecognised).
+          split; [apply new_ok_all; exact HU1 | intros _; apply nodes_gone_unrecognised; exact HP1].
+      + cbn. exists []. split; [reflexivity|]. split; [exact I|]. intros _. apply no_geff_unrecognised. exact Hng.
+    - unfold ret. cbn iota beta. apply (backend_writer_safe k w Hw s Hng). }
+  apply (crash_fresh k pre _ Hs (clean_no_geff k pre Hc)). Qed.
+Print Assumptions C05_crash_backend_writers_fresh.
+
+(* on dictionaries that convert, write_dicts IS write_arrays on the arrays dict_props_to_arr builds (so C05_crash_fresh, C05_reject,
+   C01 ... apply literally), and geff.write of a networkx graph IS api_write on them: the tie of the write_dicts / nx entries of
+   the correspondence *)
+Theorem C05_write_dicts_is_write_arrays : forall k g nn en md w s,
+  dicts_wgraph g nn en = Ok w -> write_dicts k g nn en md s = write_arrays k w md true false s.
+Proof. exact write_dicts_arrays. Qed.
+Print Assumptions C05_write_dicts_is_write_arrays.
+
+Theorem C05_api_nx_is_api_write : forall k ov d g axes mdtok axtok md w s,
+  fresh_md d axes mdtok axtok = Ok md ->
+  dicts_wgraph g (keys_of (map snd (d_nodes g))) (keys_of (map snd (d_edges g))) = Ok w ->
+  api_ov k ov (nx_write k d g axes mdtok axtok) s = Write.api_write k w md true ov s.
+Proof. exact api_nx_arrays. Qed.
+Print Assumptions C05_api_nx_is_api_write.
+
+(* non-vacuity: write_dicts of two nodes (a float on both, an int on one: a missing mask) and an edge beside a foreign group: 12 recorded
+   states, success; the same with a ragged-beyond-repair property: ValueError, no recorded state, store untouched; geff.write with
+   overwrite over the result of the first, with a property that cannot be converted: the old geff is deleted, the store ends unrecognised *)
+Example C05_dicts_nonvacuous :
+  let pre := Some (ZG [("foo", AOther 1%Z)] [("other", ZG [] [])]) in
+  let g := mkdg [(4%Z, [("t", PFloat 1024); ("s", PInt 3)]); (9%Z, [("t", PFloat 2048)])] [((4%Z, 9%Z), [("w", PFloat 512)])] in
+  let bad := mkdg [(4%Z, [("p", PList [PList [PInt 1]; PInt 2])])] [] in
+  let md := mkmd true None [] [] 0%Z in
+  clean KObj pre /\
+  (let (s', r) := write_dicts KObj g ["t"; "s"] ["w"] md (init pre) in
+   r = Ok tt /\ List.length (s_trace s') = 12%nat /\ validate_structure KObj (s_root s') = Ok tt) /\
+  write_dicts KObj bad ["p"] [] md (init pre) = (init pre, Err ValueError) /\
+  (let (s1, _) := write_dicts KObj g ["t"; "s"] ["w"] md (init pre) in
+   let (s', r) := api_ov KObj true (nx_write KObj true bad None 0 0) (init (s_root s1)) in
+   r = Err ValueError /\ s_trace s' <> [] /\ validate_structure KObj (s_root s') <> Ok tt).
+Proof. cbn zeta. split; [cbn; auto|]. vm_compute. repeat split; discriminate. Qed.
+
+(* the two dictionary-level entries of the correspondence (Corr/C05.v: IDictsCrash, INxCrash) run exactly the programs of the theorems above
+   (INxCrash with the property names in the order of the Python set NxBackend.write builds; checked to be a reordering of keys_of) *)
+From Geff Require Corr.C05.
+Theorem C05_corr_entries : forall k pre g nn en md d axes mdtok axtok ov,
+  Corr.C05.run_input (Corr.C05.IDictsCrash k pre g nn en md) = write_dicts k g nn en md (init pre) /\
+  Corr.C05.run_input (Corr.C05.INxCrash k pre d g nn en axes mdtok axtok ov)
+  = api_ov k ov (nx_write_names k d g nn en axes mdtok axtok) (init pre) /\
+  nx_write k d g axes mdtok axtok
+  = nx_write_names k d g (keys_of (map snd (d_nodes g))) (keys_of (map snd (d_edges g))) axes mdtok axtok.
+Proof. intros. split; [reflexivity|]. split; [|reflexivity]. unfold Corr.C05.run_input, api_ov, overwrite_guard, nx_write_names, bind.
+  destruct (check_for_geff k (init pre)) as [s0 [ex|e]]; [|reflexivity].
+  destruct ((if ex then if ov then delete_geff k else fail FileExistsError else ret tt) s0) as [s1 [u|e]]; reflexivity. Qed.
+Print Assumptions C05_corr_entries.
